@@ -97,3 +97,78 @@ pub fn probe_both(profile: &str, n: usize) {
     println!("-------- basic");
     probe::<BasicW>(profile, n);
 }
+
+/// developer tool: which token kinds the generator's programs contain (reach of the workload alphabet)
+pub fn tokens(profile: &str, n: usize) {
+    let mut tally: BTreeMap<String, usize> = BTreeMap::new();
+    for i in 0..n {
+        let mut rng = rng::Rng::new(rng::run_seed(1, 98, i as u64));
+        let budget = rng.range(2, 30);
+        let cfg = match profile {
+            "core" => gen::GenCfg::core(budget),
+            "heapy" => gen::GenCfg::heapy(budget),
+            _ => gen::GenCfg::full(budget),
+        };
+        let mut g = gen::Gen::new(&mut rng, cfg);
+        let prog = g.program();
+        for src in [prog.min(), prog.top()] {
+            if let Ok(toks) = garnish_lang_compiler::lex::lex(&src) {
+                for t in toks {
+                    *tally.entry(format!("{:?}", t.get_token_type())).or_default() += 1;
+                }
+            }
+        }
+    }
+    for (k, v) in &tally {
+        println!("{:8} {}", v, k);
+    }
+}
+
+pub fn annot_probe<D: SimData>(n: usize) {
+    let mut tally: BTreeMap<String, usize> = BTreeMap::new();
+    let mut samples: BTreeMap<String, String> = BTreeMap::new();
+    for i in 0..n {
+        let mut rng = rng::Rng::new(rng::run_seed(1, 97, i as u64));
+        let budget = rng.range(2, 30);
+        let mut g = gen::Gen::new(&mut rng, gen::GenCfg::full(budget));
+        let prog = g.program();
+        let src = if rng.chance(1, 2) { prog.min() } else { prog.top() };
+        let ann = gen::annotate(&src, &mut rng, 30);
+        let run = |s: &str| -> String {
+            let mut d = D::create(Host::new(HostScript { resolve_default: Some(Answer::Unique), ..Default::default() }), &Knobs::default()).unwrap();
+            let b = compile(&mut d, s);
+            match &b {
+                BuildOutcome::Ok(b) => {
+                    start(&mut d, b.entry_jump, &Val::Unit).unwrap();
+                    let mut st = "budget".to_string();
+                    for _ in 0..3000 {
+                        match step(&mut d) {
+                            StepResult::Running => {}
+                            StepResult::End => {
+                                st = "end".into();
+                                break;
+                            }
+                            _ => {
+                                st = "err".into();
+                                break;
+                            }
+                        }
+                    }
+                    format!("{} {:?} {:?}", st, current_value(&d), d.host().log.iter().map(|c| c.structural()).collect::<Vec<_>>())
+                }
+                other => other.tag().to_string(),
+            }
+        };
+        let a = run(&src);
+        let b = run(&ann);
+        let key = if a == b { "same".to_string() } else { format!("DIFF {} / {}", &a[..a.len().min(40)], &b[..b.len().min(40)]) };
+        *tally.entry(key.clone()).or_default() += 1;
+        let e = samples.entry(key).or_insert(ann.clone());
+        if ann.len() < e.len() {
+            *e = ann;
+        }
+    }
+    for (k, v) in &tally {
+        println!("{:6} {}\n         e.g. {:?}", v, k, samples[k]);
+    }
+}
